@@ -200,6 +200,8 @@ impl Region {
         if new_len <= reserved {
             db.write(write_start, data);
             self.mark_dirty_abs(start, write_start, data_len);
+            #[cfg(feature = "verif")]
+            crate::verif::point("write:fits:after_copy");
 
             if new_len != len {
                 let regions = db.regions();
@@ -247,6 +249,8 @@ impl Region {
             }
             // Drop layout before set_min_len (needs mmap_mut — would deadlock).
             drop(layout);
+            #[cfg(feature = "verif")]
+            crate::verif::point("write:extend_last:layout_dropped");
 
             if let Err(e) = db.set_min_len(target_len) {
                 let mut meta = self.meta_mut();
@@ -255,6 +259,8 @@ impl Region {
             }
 
             db.write(write_start, data);
+            #[cfg(feature = "verif")]
+            crate::verif::point("write:extend_last:after_copy");
 
             self.mark_dirty_abs(start, write_start, data_len);
             let regions = db.regions();
@@ -278,6 +284,8 @@ impl Region {
             drop(layout);
 
             db.write(write_start, data);
+            #[cfg(feature = "verif")]
+            crate::verif::point("write:expand_hole:after_copy");
 
             self.mark_dirty_abs(start, write_start, data_len);
             let regions = db.regions();
@@ -315,6 +323,8 @@ impl Region {
             layout.reserve(new_start, new_reserved);
             // Drop layout before set_min_len (needs mmap_mut — would deadlock).
             drop(layout);
+            #[cfg(feature = "verif")]
+            crate::verif::point("write:relocate_end:layout_dropped");
 
             if let Err(e) = db.set_min_len(target_len) {
                 let mut layout = db.layout_mut();
@@ -324,8 +334,12 @@ impl Region {
             new_start
         };
 
+        #[cfg(feature = "verif")]
+        crate::verif::point("write:relocate:before_copy");
         db.copy(start, new_start, copy_len)?;
         db.write(new_start + write_offset, data);
+        #[cfg(feature = "verif")]
+        crate::verif::point("write:relocate:after_copy");
 
         trace!(
             "{}: '{}' write_with re-acquiring layout_mut (after relocation)",
